@@ -622,6 +622,26 @@ def gen_selection(rng, suite, max_workers=3):
     return {"tests_str": tests_str, "vm_strs": vm_strs, "nets": nets}
 
 
+def portable_case(case):
+    """a case as it goes into a replay file: the shipped suite is named, not copied"""
+    c = dict(case)
+    if isinstance(c.get("suite"), dict) and c["suite"].get("path"):
+        c["suite"] = "shipped"
+    return c
+
+
+def load_case(case):
+    """inverse of `portable_case` / JSON round trip"""
+    c = dict(case)
+    if c.get("suite") == "shipped":
+        c["suite"] = shipped_suite()
+    elif c.get("suite"):
+        c["suite"] = suite_from_json(c["suite"])
+    if c.get("order"):
+        c["order"] = [tuple(o) for o in c["order"]]
+    return c
+
+
 def suite_from_json(s):
     s = dict(s)
     s["nets"] = {n: {vm: (r[0], list(r[1])) for vm, r in restr.items()} for n, restr in s["nets"].items()}
@@ -635,6 +655,8 @@ def suite_dir(suite):
     """write the suite once per content"""
     import hashlib
     import json
+    if suite.get("path"):
+        return suite["path"]
     h = hashlib.sha1(json.dumps(suite, sort_keys=True, default=list).encode()).hexdigest()[:12]
     if h not in _suite_dirs or not os.path.isdir(_suite_dirs[h]):
         d = os.path.join(scratch(), "suite-" + h)
@@ -659,7 +681,8 @@ def run_case(case):
     # the real parser does not always terminate on graphs it mangles (observed: runaway cloning when validate()
     # is not there to abort it): bound every parse
     old_handler = signal.signal(signal.SIGALRM, _alarm)
-    signal.alarm(int(case.get("timeout", 90 if case.get("suite") else 400)))
+    mini = bool(case.get("suite")) and not case["suite"].get("path")
+    signal.alarm(int(case.get("timeout", 90 if mini else 400)))
     try:
         if case.get("mode", "eager") == "eager":
             graph = parse_eager(case["tests_str"], case["vm_strs"], params)
@@ -821,11 +844,16 @@ def restr_filter(restr_lines, variants):
     return out
 
 
+def net_restrictions(suite, worker):
+    """{vm: (only|no, [labels])} of a worker's net (clustered nets are keyed with their cluster first)"""
+    nets = suite["nets"]
+    return nets.get(worker, nets.get(worker.split(".")[-1], {}))
+
+
 def allowed_variants(suite, case, worker, vm, test):
     """variants of `vm` a test may be composed with on a worker: user restriction, net restriction, own restriction"""
     vs = restr_filter(case["vm_strs"].get(vm, ""), suite["variants"][vm])
-    net = worker.split(".")[-1]
-    r = suite["nets"].get(net, {}).get(vm)
+    r = net_restrictions(suite, worker).get(vm)
     if r:
         vs = [v for v in vs if (v in r[1]) == (r[0] == "only")]
     if vm in test["only"]:
@@ -869,6 +897,8 @@ def parse_restr_lines(text):
 
 
 def test_sets(t):
+    if "set_prefixes" in t:
+        return list(t["set_prefixes"])
     if t["kind"] == "leaf":
         return ["all", "leaves"] + list(t["sets"])
     return ["all", "nonleaves"]
@@ -878,7 +908,7 @@ def suite_lines(suite, case):
     lines = ["s-new"]
     for vm in suite["vms"]:
         lines.append(f"s-vm {vm} {','.join(suite['variants'][vm])}")
-    lines.append("s-main vm1")
+    lines.append(f"s-main {suite.get('main_vm', 'vm1')}")
     for t in suite["tests"]:
         if t["kind"] == "noop":
             continue
@@ -888,21 +918,26 @@ def suite_lines(suite, case):
             kind, _, vm = okey.partition("_")
             lines.append(f"s-slot {_t(vm)} {kind} {_t(o['get'])} {_t(o['get_state'])} {_t(o['set_state'])}")
         for vm, oss in t["only"].items():
-            lines.append(f"s-only {vm} {','.join(oss)}")
+            lines.append(f"s-only {vm} {_t(','.join(oss))}")
     for vm, text in case["vm_strs"].items():
         for kind, names in parse_restr_lines(text):
             lines.append(f"s-user {vm} {kind} {names}")
     for kind, alts in parse_restr_lines(case["tests_str"]):
         lines.append(f"s-sel {kind} {alts}")
     for w in case["nets"]:
-        restr = suite["nets"].get(w.split(".")[-1], {})
-        lines.append(" ".join([f"s-worker {w}"] + [f"{vm}:{r[0]}:{','.join(r[1])}" for vm, r in restr.items()]))
+        restr = net_restrictions(suite, w)
+        lines.append(" ".join([f"s-worker {w}"] + [f"{vm}:{r[0]}:{_t(','.join(r[1]))}" for vm, r in restr.items()]))
     return lines
 
 
 def variant_label(comp, suffix):
-    """short label of a vm variant from its component form (`vm1.Aos` -> Aos)"""
+    """short label of a vm variant from its component form (`vm1.Aos` -> Aos; shipped suite:
+    `vm1.qemu_kvm_centos.….Linux.CentOS.8.0.x86_64` -> CentOS, the variant below the OS family)"""
     rest = comp[len(suffix) + 1:] if comp.startswith(suffix + ".") else comp
+    toks = rest.split(".")
+    for fam in ("Linux", "Windows"):
+        if fam in toks and toks.index(fam) + 1 < len(toks):
+            return toks[toks.index(fam) + 1]
     return rest
 
 
@@ -928,17 +963,19 @@ def canon_real(x, label=variant_label):
             gs = "" if o["get_state"] == "0root" else o["get_state"]
             slots.append(f"{vm}:{o['key']}:{o['get']}:{gs}:{o['set_state']}")
         nodes.append(key + ";" + ("1" if nd["object_root"] else "0") + ";" + ",".join(sorted(slots)))
+    has_composite_parent = set()
     for (c, p, o) in x["setup"]:
         if c not in keys:
             continue
         if x["nodes"][p]["flat"]:
-            if x["nodes"][p]["shared_root"]:
-                rooted.append(keys[c])
+            # the shared root, or (lazy parsing) the flat node a leaf was expanded from: not a dependency
             continue
+        has_composite_parent.add(c)
         if p not in keys:
             edges.append(f"{keys[c]}>{_slot_of(o)}>SOURCE:{x['nodes'][p]['id']}")
             continue
         edges.append(f"{keys[c]}>{_slot_of(o)}>{keys[p]}")
+    rooted = [k for i, k in keys.items() if i not in has_composite_parent]
     return sorted(nodes), sorted(edges), sorted(set(rooted)), dup
 
 
@@ -1056,8 +1093,11 @@ class patched:
             spec.loader.exec_module(m)
             pc, rc = getattr(m, cls), getattr(real, cls)
             for k, v in vars(pc).items():
-                if k.startswith("__") and k not in ("__init__", "__repr__", "__contains__"):
+                if k.startswith("__"):
                     continue
+                code = getattr(getattr(v, "__func__", v), "__code__", None)
+                if code is not None and "__class__" in code.co_freevars:
+                    continue        # zero-argument super() is bound to the copied class: keep the original
                 if k in vars(rc):
                     self.saved.append((rc, k, vars(rc)[k]))
                     try:
@@ -1125,4 +1165,132 @@ def run_attributed(ctx, case, run_one, double_clone_key="double-clone"):
         key = attributed or v["key"]
         ctx.count("violation." + key)
         what = v["what"] if not attributed else f"[disappears under the minimal fix of finding `{attributed}`] " + v["what"]
-        ctx.violate(key, what, v["case"])
+        ctx.violate(key, what, portable_case(v["case"]))
+
+
+# ---------------------------------------------------------------------------------------------
+# the abstract suite of the SHIPPED tp_folder, enumerated through virttest's Cartesian parser directly
+# (neither params_parser nor graph.py is involved)
+# ---------------------------------------------------------------------------------------------
+
+_shipped = {}
+
+
+def shipped_suite():
+    """Same dictionary format as `gen_suite`.  A test whose declarations depend on the vm variant (conditional
+    blocks such as `Ubuntu, Kali: get_images = …in_cdrom_ks`, `vm1.qemu_kvm_centos: get_images_vm1 = connect`)
+    becomes several abstract tests of the same name with disjoint own vm restrictions."""
+    if "suite" in _shipped:
+        return _shipped["suite"]
+    import itertools
+    from virttest import cartesian_config
+    from virttest.utils_params import Params
+    C = os.path.join(SHIPPED, "configs") + os.sep
+
+    def dicts(*steps):
+        p = cartesian_config.Parser()
+        for kind, arg in steps:
+            (p.parse_file if kind == "file" else p.only_filter)(arg)
+        return list(p.get_dicts())
+
+    mains = Params(dicts(("file", C + "groups-base.cfg"))[0]).objects("main_restrictions")
+    base = Params(dicts(("file", C + "guest-base.cfg"))[0])
+    vms = base.objects("vms")
+
+    def setless(name):
+        best = ""
+        for m in mains:
+            if name.startswith(m + ".") and len(m) > len(best):
+                best = m
+        return best, name[len(best) + 1:]
+
+    # vm variants and their labels
+    variants, fullname = {}, {}
+    for d in dicts(("file", C + "vms.cfg")):
+        vm = d["name"].split(".")[1]
+        lab = variant_label(d["name"][4:], vm)
+        variants.setdefault(vm, []).append(lab)
+        fullname[(vm, lab)] = d["name"].split(".")
+    for vm in variants:
+        variants[vm].sort()
+
+    def labels_matching(vm, text):
+        """`only_vm1 = qemu_kvm_centos, Fedora` -> labels of the variants whose name has one of these variants"""
+        toks = [t.strip() for t in text.split(",") if t.strip()]
+        return [lab for lab in variants[vm] if any(name_matches(t, ".".join(fullname[(vm, lab)])) for t in toks)]
+
+    # nets
+    nets = {}
+    for d in dicts(("file", C + "nets.cfg")):
+        restr = {}
+        for k, v in d.items():
+            if k.startswith("only_") or k.startswith("no_"):
+                kind, vm = k.split("_", 1)
+                if vm in variants:
+                    restr[vm] = (kind, labels_matching(vm, v))
+        nets[d["shortname"]] = restr
+    # the flat universe and its set prefixes
+    prefixes, flat = {}, {}
+    for d in dicts(("file", C + "sets.cfg")):
+        pre, name = setless(d["name"])
+        prefixes.setdefault(name, []).append(pre)
+        flat[name] = d
+    # declarations per (test, vm, variant)
+    per = {}
+    for vm in vms:
+        for lab in variants[vm]:
+            for d in dicts(("file", C + "vms.cfg"), ("only", vm), ("only", lab), ("file", C + "sets.cfg"), ("only", "all")):
+                name = d["name"].split(".vms.")[0][4:]
+                per[(name, vm, lab)] = Params(d)
+
+    def decl(name, vm, lab):
+        pr = per[(name, vm, lab)]
+        out = {}
+        for kind, chain in (("images", [vm, "image1", "images"]), ("vms", [vm, "vms"])):
+            op = pr
+            for c in chain:
+                op = op.object_params(c)
+            g, gs, ss = op.get("get", "") or "", op.get("get_state", "") or "", op.get("set_state", "") or ""
+            gs = "" if gs == "0root" else gs
+            if g or ss:
+                out[kind] = (g, gs if g else "", ss)
+        own = {}
+        for k, v in pr.items():
+            if k.startswith("only_") and k[5:] in variants:
+                own[k[5:]] = labels_matching(k[5:], v)
+        return tuple(sorted(out.items())), tuple(sorted((k, tuple(v)) for k, v in own.items()))
+
+    tests = []
+    for name, d in flat.items():
+        if name == "internal.stateless.noop":
+            tests.append({"name": name, "kind": "noop", "vms": None, "objs": {}, "only": {}, "sets": []})
+            continue
+        tvms = d["vms"].split() if d.get("vms") else None
+        kind = "original" if name.startswith("original.") else ("setup" if name.startswith("internal.") else "leaf")
+        groups = {}
+        for vm in (tvms or vms):
+            g = {}
+            for lab in variants[vm]:
+                if (name, vm, lab) in per:      # (guest-os.cfg excludes some tests for some OS variants)
+                    g.setdefault(decl(name, vm, lab), []).append(lab)
+            groups[vm] = g
+        combos = (itertools.product(*[[(vm, sig, labs) for sig, labs in groups[vm].items()] for vm in tvms])
+                  if tvms else [[(vm, sig, labs)] for vm in vms for sig, labs in groups[vm].items()])
+        for combo in combos:
+            objs, only = {}, {}
+            for vm, (slots, own), labs in combo:
+                only[vm] = list(labs)
+                for k, (g, gs, ss) in slots:
+                    objs[f"{k}_{vm}" if tvms else k] = {"get": g, "get_state": gs, "set_state": ss}
+            for vm, (slots, own), labs in combo:
+                for u, allowed in own:
+                    only[u] = [x for x in only.get(u, variants[u]) if x in allowed]
+            if not tvms:
+                for u in vms:
+                    only.setdefault(u, [])      # a one-vm test copy is only ever composed with its own vm
+            tests.append({"name": name, "kind": kind, "vms": tvms, "objs": objs, "only": only, "sets": [],
+                          "set_prefixes": prefixes[name]})
+    suite = {"vms": vms, "variants": variants, "nets": nets, "clusters": {}, "tests": tests, "path": SHIPPED,
+             "main_vm": base.get("main_vm", "vm1")}
+    _shipped["suite"] = suite
+    return suite
